@@ -56,10 +56,17 @@ def check_valid(node) -> Optional[str]:
 
 
 def allowed_simplify_failure(ast) -> Optional[bool]:
-    """the statement's two licences to raise: identically-zero divisor, or undefined constant subexpression"""
+    """the statement's licence to raise: an undefined constant subexpression — syntactically closed, or valuation-independent as proved by z3
+    (identically-zero divisor; a call / division / power that is undefined on every valuation)"""
     if eq.has_undefined_constant(ast):
         return True
-    return eq.zero_divisor_somewhere(ast)
+    z = eq.zero_divisor_somewhere(ast)
+    if z:
+        return True
+    n = eq.never_defined_somewhere(ast)
+    if n:
+        return True
+    return None if (z is None or n is None) else False
 
 
 def build_or_none(spec):
